@@ -150,8 +150,6 @@ def main():
         "not_applicable": na,
         "notes": "Runtime monitoring only. Exit codes of ./check: 0 held on everything observed; 1 violation (VIOLATION line + replay file); 2 inconclusive (observation thresholds not met / watchdog); 3 harness or build error. Known findings: /verif/known_findings.json (read-only at run time).",
     }
-    if not na:
-        del man["not_applicable"]
     json.dump(man, open(os.path.join(here, "MANIFEST.json"), "w"), indent=1)
     print("checks:", len(checks), "not_applicable:", len(na))
 
